@@ -735,7 +735,7 @@ Definition ev_loc_ok (full : str) (e : event) : Prop :=
 
 Lemma addr_ok_suffix : forall a b, addr_ok (a ++ b) -> addr_ok b.
 Proof.
-  intros a b [H1 H2]. split; [eapply addr_chars_suffix; exact H1 | eapply digit_runs_suffix; exact H2].
+  intros a b H. eapply addr_chars_suffix; exact H.
 Qed.
 
 Theorem spec_full_address : forall f t m args o l full,
@@ -871,7 +871,7 @@ Qed.
 
 Lemma tree_ex_names : names_ok tree_ex /\ addr_ok (strip msg_ex).
 Proof.
-  split; [|split; [repeat constructor; discriminate | apply short_runs_ok; cbn; lia]].
+  split; [|repeat constructor; discriminate].
   constructor.
   - intros [|[|[|n]]] name sub E; cbn in E; inversion E; subst; cbn [nth_error].
     + exists {| segs := [Lit [97]; Enum [50]]; subtree := true; types := None |}.
